@@ -191,6 +191,14 @@ func c11(args []string) {
 			jobs = append(jobs, &c11Job{kind: kind, s: s, del: del, cfg: cfg(), label: kind})
 		}
 	}
+	// directed topologies with outputs relative to the parent directory: RunTo a prefix, then Run
+	for _, k := range []string{"chain", "twoout", "diamond"} {
+		for _, g := range []bool{false, true} {
+			tc := topoCase{k, gen.ShapeParent, g, 2}
+			target := map[string]string{"chain": "B", "twoout": "A", "diamond": "A"}[k]
+			jobs = append(jobs, &c11Job{kind: "runto", tc: &tc, target: []string{target}, cfg: Cfg{Buf: 3, Procs: 2}, label: "RunTo then Run (outputs in ../ directories)"})
+		}
+	}
 	// directed topologies: crash, cleanup, resume
 	var tcs []topoCase
 	for _, k := range []string{"chain", "diamond", "twoout", "params"} {
@@ -235,6 +243,15 @@ func c11(args []string) {
 		s := j.s
 		if j.tc != nil {
 			s = gen.Topo(j.tc.kind, j.tc.shape, j.tc.gof, root, j.tc.n)
+			if j.tc.shape == gen.ShapeParent {
+				// only the first processing step writes outside the working directory; its consumers use plain paths
+				plain := gen.Topo(j.tc.kind, gen.ShapePlain, j.tc.gof, root, j.tc.n)
+				for _, p := range s.Procs {
+					if p.Name != "A" {
+						p.Outs = plain.Proc(p.Name).Outs
+					}
+				}
+			}
 		}
 		exp := evalRef(s, nil)
 		desc := map[string]interface{}{"history": j.label, "spec": s, "cfg": j.cfg, "crash": j.crash, "runto": j.target}
